@@ -201,7 +201,7 @@ def main(chk):
     outs = common.run_model([p[4] for p in pending], timeout=2400)
     # the definition GENERATED from GraphicalModel.belief_propagation by translator/py2gallina_bp.py, on the same cases
     # (the 2^+-1200 stream is left to the hand model: big-rational arithmetic dominates; the logZ branch is exercised on every third case)
-    gsel = [k for k, p in enumerate(pending) if p[0]['stream'] != 'huge' or chk.tier != 'quick']
+    gsel = [k for k, p in enumerate(pending) if p[0]['stream'] != 'huge' and (chk.tier == 'quick' or k % 4 == 0)]
     glines = ['bp_src' + pending[k][4][2:].rsplit(' ', 1)[0] + (' 1' if k % 3 == 0 else ' 0') for k in gsel]
     gmap = dict(zip(gsel, common.run_gen(glines, timeout=2400)))
     for k, ((case, sched, code, err, line, tag), out) in enumerate(zip(pending, outs)):
